@@ -68,7 +68,7 @@ def pure_exports(ctx):
     before = snap(S, d)
     base = encode_json_document(d)
     e1 = P["e1"] if "e1" in P else ctx.choose("exp1", len(PURE))
-    e2 = (e1 + ctx.choose("exp2", 3)) % len(PURE)   # the same exporter again, or one of the next two
+    e2 = (e1 + ctx.choose("exp2", 2 if P["tier"] == "quick" else 3)) % len(PURE)   # the same exporter again, or the next one (two)
     r1 = _pure_export(ctx, d, other, e1)
     ctx.check(exact_eq(before["content"], snap(S, d)["content"]), "%s changed the document's content or record order" % PURE[e1])
     ctx.check(exact_eq(before["ns"], snap(S, d)["ns"]), "%s changed the document's registered / default namespaces" % PURE[e1])
@@ -213,7 +213,7 @@ OBLIGATIONS = [
     Obligation(name="pure_exports", fn=pure_exports, shards=_pure_shards,
                desc="for every ordered pair of pure-Python exporters (PROV-JSON container, ==, unified, flattened, lookups ...) on documents with symbolic contents: "
                     "strict content, record order, registered and default namespaces are identical before and after; repeated calls agree; the JSON container is unchanged; PROV-N text unchanged",
-               bounds="documents as C01.values (3 (quick) / 6 value kinds x 5 namespace modes) and C01.structure (4 / 8 kinds, two records / bundle); each exporter followed by itself or one of the next two (21 ordered pairs)",
+               bounds="documents as C01.values (3 (quick) / 6 value kinds x 5 namespace modes) and C01.structure (4 / 8 kinds, two records / bundle); each exporter followed by itself or the next one (14 ordered pairs; 21 in the thorough tier)",
                assumptions=_ASSUME, functions=["prov.serializers.provjson.encode_json_document", "prov.model.ProvDocument.__eq__/unified/flattened", "prov.model.ProvBundle.get_record/get_provn"],
                budget_s=(400, 900), per_path_s=(30, 60)),
     Obligation(name="all_exports", fn=all_exports, shards=_all_shards,
